@@ -530,7 +530,7 @@ pub struct Gen<'a> {
     shadowed: Vec<String>,
 }
 
-const NAME_POOL: [&str; 17] = ["a", "b.o", "src/x.c", "dir/sub/y", "é", "日本.txt", "sp ace", "co:lon", "do$lar", "with-dash_1", "../up/f", "./dot/g", "a//b", "q/../r", "w\\in\\x", "w\\.\\y", "m/ix\\ed"];
+const NAME_POOL: [&str; 21] = ["a", "b.o", "src/x.c", "dir/sub/y", "é", "日本.txt", "sp ace", "co:lon", "do$lar", "with-dash_1", "../up/f", "./dot/g", "a//b", "q/../r", "w\\in\\x", "w\\.\\y", "m/ix\\ed", "/abs/p", "//abs2/q", "/\\abs3", "//./abs4/../r"];
 const VAR_NAMES: [&str; 7] = ["a", "b", "flags", "dir", "x_1", "v.dot", "opt-level"];
 
 impl<'a> Gen<'a> {
@@ -778,6 +778,28 @@ impl<'a> Gen<'a> {
         }
         stmts.extend(self.file_stmts(&mut am, 0, &mut rules, &mut outs, n));
         am.files[0].1 = stmts;
+        if self.rng.chance(1, 5) {
+            // the template idiom: one file of bindings pulled in from several places (twice from one
+            // file, or from two files that are themselves included: a diamond), by include or subninja
+            let idx = am.files.len();
+            let nv = self.rng.range(1, 3);
+            let mut t = Vec::new();
+            for _ in 0..nv {
+                let n = self.var_name();
+                if n == "dir" {
+                    continue;
+                }
+                let v = self.value(false);
+                t.push(Stmt::Var(n, v));
+            }
+            am.files.push(("9tmpl.ninja".to_string(), t));
+            for _ in 0..self.rng.range(2, 3) {
+                let f = self.rng.below(idx);
+                let at = self.rng.range(if f == 0 { 1 } else { 0 }, am.files[f].1.len());
+                let st = if self.rng.chance(2, 3) { Stmt::Include(idx) } else { Stmt::Subninja(idx) };
+                am.files[f].1.insert(at, st);
+            }
+        }
         am
     }
 }
